@@ -20,6 +20,7 @@ from __future__ import annotations
 import re
 from typing import Any, Callable
 
+from mc import c19_extra
 from mc.choicetree import Alphabet, draw_strategy, replay
 from mc.runner import Result, digest
 from props import common
@@ -30,18 +31,34 @@ ENGINES = ["E5", "E1"]
 RULE = (
     "state = registration history (sequence of real (un)registration calls from the stated alphabet, depth <= D) executed on a fresh "
     "schema with process globals reset; every history of the bounded tree is executed (BFS, no sampling) and judged for each of the "
-    "operations GET /a, POST /a, GET /b; a history is non-trivial when at least one live extension carries a filter of its own or an "
+    "operations GET /a (tags [x], operationId getA), POST /a (tags [x, y], operationId postA), GET /b (neither); families: hooks / auth / "
+    "mixed over the quick alphabet, and (mc/c19_extra.py) terms = every documented filter condition on hooks and providers, kinds = every "
+    "verb x container hook kind with a filter, identity = one function under two names / on two scopes / unregistered on the wrong scope / "
+    "an unknown function unregistered, derived_* = observed through schema.include()/exclude(); a history is non-trivial when at least one live extension carries a filter of its own or an "
     "unregistration removed something; distinct = distinct canonical observations (stored filters, applied sets, auth per operation)"
 )
 BOUNDS = {
-    "quick": {"depth_hooks": 3, "depth_auth": 3, "depth_mixed": 2, "alphabet": "quick", "operations": 3, "cases_per_operation": 1},
+    "quick": {"depth_hooks": 3, "depth_auth": 3, "depth_mixed": 2, "alphabet": "quick", "operations": 3, "cases_per_operation": 1,
+              "depth_terms": 2, "depth_kinds": 2, "depth_identity": 3, "depth_derived": 2},
     "thorough": {"depth_hooks": 4, "depth_hooks_wide": 2, "depth_auth": 4, "depth_mixed": 3, "alphabet": "quick (deep) + wide (depth 2)",
-                 "operations": 3, "cases_per_operation": 1},
+                 "operations": 3, "cases_per_operation": 1,
+                 "depth_terms": 2, "depth_kinds": 2, "depth_identity": 3, "depth_derived": 2},
 }
 BUDGET_S = {"quick": 140, "thorough": 3000}
 CHUNK = 4
 ASSUMPTIONS = [
-    "each registration uses a fresh function / provider class (the same function object is never registered twice)",
+    "each registration uses a fresh function / provider class, except the actions rehook / rereg / alias / twin, which register the function of "
+    "an earlier hook again - always with the same filters as the live registration of that function (two live registrations of one function "
+    "with DIFFERENT filters are never built: the text does not say which filter holds)",
+    "filter conditions are judged with the semantics of docs/extending.rst and docs/auth.rst only: AND within a term, OR between terms, "
+    "skip_for excludes; an operation without tags / operationId satisfies no tag / operation_id condition; regexes are unanchored "
+    "(`search`); method values are compared case-insensitively, method regexes are only given in upper case",
+    "derived schemas (schema.include / schema.exclude) are created after the whole history, so that every registration on the parent belongs "
+    "to the derived schema's scope; registrations made on the parent after deriving are not enumerated",
+    "order of application is judged only between two live hooks of the same kind (global, then schema, then test; order of definition "
+    "within one scope), as docs/extending.rst states it",
+    "unregister(<function never registered>) is documented neither as an error nor as a no-op: if it raises, the case is counted as "
+    "undecided; when it returns, no registered hook may have disappeared",
     "one generated case per operation along the all-zero choice path; hooks always accept (filter hooks return True), so whether a hook ran does not depend on drawn data",
     "process globals are reset per history with the test-suite's own functions (schemathesis.hooks.unregister_all, schemathesis.auth.unregister); "
     "the registration closure behind schemathesis.hook has no reset function, so it is re-created with the library's own constructor "
@@ -54,6 +71,22 @@ ASSUMPTIONS = [
 ]
 
 OPS = [["GET", "/a"], ["POST", "/a"], ["GET", "/b"]]
+# family `graphql` (docs/extending.rst "GraphQL hooks"; condition `name`: "such as ``GET /users/`` or ``Query.getUsers``")
+GQL_SDL = "type Query { getBooks(n: Int!): Int  getAuthors(n: Int!): Int }  type Mutation { addBook(n: Int!): Int }"
+GQL_OPS = [["Query", "getBooks"], ["Query", "getAuthors"], ["Mutation", "addBook"]]
+
+
+def is_gql(op: list) -> bool:
+    return op[0] in ("Query", "Mutation")
+
+
+def op_key(op: list) -> str:
+    """The operation's documented name."""
+    return f"{op[0]}.{op[1]}" if is_gql(op) else f"{op[0]} {op[1]}"
+
+
+def ops_of(spec: str) -> list:
+    return GQL_OPS if spec == "graphql" else OPS
 _Q = [{"name": "q", "in": "query", "required": True, "schema": {"type": "integer"}}]
 _R = {"200": {"description": "ok"}}
 DOC = {
@@ -61,13 +94,16 @@ DOC = {
     "info": {"title": "c19", "version": "1"},
     "paths": {
         "/a": {
-            "get": {"parameters": _Q, "responses": _R},
+            "get": {"tags": ["x"], "operationId": "getA", "parameters": _Q, "responses": _R},
             "post": {
+                "tags": ["x", "y"],
+                "operationId": "postA",
                 "parameters": _Q,
                 "requestBody": {"required": True, "content": {"application/json": {"schema": {"type": "integer"}}}},
                 "responses": _R,
             },
         },
+        # no tags, no operationId: a `tag` / `operation_id` condition never holds here
         "/b": {"get": {"parameters": _Q, "responses": _R}},
     },
 }
@@ -208,15 +244,32 @@ def alphabet(name: str) -> list[dict]:
         return HOOKS_QUICK + AUTH_QUICK
     if name == "hooks_wide":
         return _hooks_wide()
+    if name in c19_extra.FAMILIES:
+        return _extra_alphabet(name)
     raise KeyError(name)
+
+
+_EXTRA_CACHE: dict[str, list[dict]] = {}
+
+
+def _extra_alphabet(name: str) -> list[dict]:
+    if name not in _EXTRA_CACHE:
+        _EXTRA_CACHE[name] = c19_extra.FAMILIES[name][0]()
+    return _EXTRA_CACHE[name]
+
+
+def view_of(fam: str) -> str | None:
+    """Families `derived_*` observe the history through a schema derived from the one the extensions were registered on."""
+    return fam.split("_", 1)[1] if fam.startswith("derived_") else None
 
 
 def enabled(prefix: list[dict], action: dict) -> bool:
     if action["t"] == "rereg":
         return any(a["t"] in ("unreg", "unreg_all") for a in prefix)
-    if action["t"] == "unreg":
-        # the target is the i-th hook registration that is not rejected as documented
-        return sum(1 for a in prefix if a["t"] == "hook" and not (a["kind"] == "before_process_path" and a["filter"])) > action["i"]
+    if action["t"] in ("unreg", "alias", "twin", "unreg_other_scope"):
+        # the target is the i-th hook registration that is not rejected as documented (`alias` / `twin` add a registration)
+        return sum(1 for a in prefix if a["t"] in ("alias", "twin")
+                   or (a["t"] == "hook" and not (a["kind"] == "before_process_path" and a["filter"]))) > action["i"]
     return True
 
 
@@ -245,6 +298,9 @@ def items(tier: str, seed: int) -> list[dict]:
     family("auth", b["depth_auth"])
     family("hooks", b["depth_hooks"])
     family("mixed", b["depth_mixed"])
+    # review round 2 (mc/c19_extra.py): cheap enough for both tiers
+    for fam, (_, depth) in c19_extra.FAMILIES.items():
+        family(fam, depth)
     if tier == "thorough":
         family("hooks_wide", b["depth_hooks_wide"])
     out.sort(key=lambda it: (len(it["prefix"]), it["depth"]))
@@ -260,18 +316,69 @@ def _as_list(v: Any) -> list:
     return v if isinstance(v, list) else [v]
 
 
-def term_matches(kw: dict, op: list) -> bool:
-    """All conditions of one apply_to/skip_for term hold for the operation (AND)."""
+# custom matcher functions (docs/auth.rst: "pass it as the first argument", the function gets a context with `.operation`):
+# name -> (the function given to schemathesis, the same predicate on the model's [method, path])
+def _is_b(ctx: Any) -> bool:
+    return ctx.operation.path == "/b"
+
+
+def _is_mutation(ctx: Any) -> bool:
+    return ctx.operation.label.startswith("Mutation.")
+
+
+def _is_post(ctx: Any) -> bool:
+    return ctx.operation.method.upper() == "POST"
+
+
+_is_b.__name__ = "is_b"
+_is_post.__name__ = "is_post"
+_is_mutation.__name__ = "is_mutation"
+PREDICATES: dict[str, tuple[Callable, Callable]] = {
+    "is_b": (_is_b, lambda method, path: path == "/b"),
+    "is_post": (_is_post, lambda method, path: method.upper() == "POST"),
+    "is_mutation": (_is_mutation, lambda root, field: root == "Mutation"),
+}
+
+
+def op_attributes(op: list) -> dict:
+    """What the documentation's conditions refer to, read from the document itself (tags / operationId may be absent)."""
     method, path = op
+    if is_gql(op):
+        # a GraphQL field has a name only; "tag ... For Open API it comes from the ``tags`` field", "operation_id ... For Open API it comes
+        # from the ``operationId`` field" - nothing of the kind exists here (the alphabet uses values no GraphQL name can take); the
+        # documentation says nothing about method / path of a GraphQL operation: never used on this family
+        return {"name": [op_key(op)], "tag": [], "operation_id": []}
+    definition = DOC["paths"][path][method.lower()]
+    attrs = {"method": [method.upper()], "path": [path], "name": [f"{method.upper()} {path}"], "tag": list(definition.get("tags", []))}
+    attrs["operation_id"] = [definition["operationId"]] if "operationId" in definition else []
+    return attrs
+
+
+def _regex(value: Any) -> "re.Pattern":
+    if isinstance(value, dict):  # a compiled regex given by the user, with its flags
+        return re.compile(value["compiled"], re.IGNORECASE if "I" in value.get("flags", "") else 0)
+    return re.compile(value)
+
+
+def term_matches(kw: dict, op: list) -> bool:
+    """All conditions of one apply_to/skip_for term hold for the operation (AND).
+
+    docs/extending.rst + docs/auth.rst: path, method ("the upper-cased HTTP method"), name ("GET /users/"), tag ("the tag assigned to the
+    API operation" - an operation may carry several, none of them or no operationId at all), operation_id; "each condition can take either
+    a single string or a list of options"; `<condition>_regex` takes "a string or a compiled regex"; a custom function comes first.
+    """
+    method, path = op
+    attrs = op_attributes(op)
     for key, value in kw.items():
-        if key == "method":
+        if key == "func":
+            ok = PREDICATES[value][1](method, path)
+        elif key == "method" and not is_gql(op):
             ok = method.upper() in [m.upper() for m in _as_list(value)]
-        elif key == "path":
-            ok = path in _as_list(value)
-        elif key == "name":
-            ok = f"{method.upper()} {path}" in _as_list(value)
-        elif key == "path_regex":
-            ok = re.search(value, path) is not None
+        elif key in ("path", "name", "tag", "operation_id") and key in attrs:
+            ok = any(v in _as_list(value) for v in attrs[key])
+        elif key.endswith("_regex") and key[: -len("_regex")] in attrs:
+            rx = _regex(value)
+            ok = any(rx.search(v) is not None for v in attrs[key[: -len("_regex")]])
         else:
             raise AssertionError(f"condition {key} is not modelled")
         if not ok:
@@ -296,6 +403,8 @@ def spec_terms(spec: list) -> list:
         for key, value in kw.items():
             if key == "method":
                 value = [m.upper() for m in value] if isinstance(value, list) else value.upper()
+            elif key.endswith("_regex") and isinstance(value, dict):
+                value = value["compiled"]
             conds.append([key, value])
         out.append([t, sorted(conds, key=repr)])
     return sorted(out, key=repr)
@@ -326,13 +435,23 @@ def container_of(kind: str) -> str:
         return "examples"
     if kind == "before_process_path":
         return "path_processing"
-    return kind.rsplit("_", 1)[1]
+    for verb in ("before_generate_", "filter_", "map_", "flatmap_"):
+        if kind.startswith(verb):
+            return kind[len(verb):]
+    raise AssertionError(kind)
+
+
+def verb_of(kind: str) -> str | None:
+    for verb in ("before_generate", "filter", "map", "flatmap"):
+        if kind.startswith(verb + "_"):
+            return verb
+    return None
 
 
 def has_container(kind: str, op: list) -> bool:
     if kind == "before_process_path":
         return False  # runs while the schema is parsed, not per generated case: never judged
-    return container_of(kind) != "body" or op == ["POST", "/a"]
+    return container_of(kind) != "body" or op == ["POST", "/a"] or is_gql(op)
 
 
 # ---------------------------------------------------------------------------------------------------------------------
@@ -355,7 +474,10 @@ def stored_terms(fn: Any) -> list | None:
             conds = []
             for m in f.matchers:
                 mo = _LABEL.match(m.label)
-                assert mo is not None, m.label
+                if mo is None:
+                    # a custom matcher function is labelled with the function's name
+                    conds.append(["func", m.label])
+                    continue
                 attr, rx, raw = mo.groups()
                 attr = "name" if attr == "label" else attr
                 if rx:
@@ -363,7 +485,10 @@ def stored_terms(fn: Any) -> list | None:
                     pat = m.func.keywords["regex"].pattern
                     conds.append([attr + "_regex", pat])
                 else:
-                    conds.append([attr, ast.literal_eval(raw)])
+                    value = ast.literal_eval(raw)
+                    if attr == "method":  # letter case of a stored method value is not observable (spec_terms does the same)
+                        value = [v.upper() for v in value] if isinstance(value, list) else value.upper()
+                    conds.append([attr, value])
             out.append([t, sorted(conds, key=repr)])
     return sorted(out, key=repr)
 
@@ -384,6 +509,11 @@ class Env:
         self.failed: dict | None = None  # a registration that is legal on its own raised
         self.rejected_specs: list[dict] = []  # filters of registrations rejected as documented
         self.n = 0
+        self.seq = 0  # position of a registration in the order of definition (docs/extending.rst: "execute in the order they are defined")
+        self.spec = "openapi"
+        self.view: str | None = None  # observe through schema.include(..) / schema.exclude(..) instead of the schema itself
+        self.undecided: list[str] = []
+        self.foreign = 0  # calls of unregister(<function never registered>)
 
 
 def reset_globals() -> None:
@@ -466,9 +596,24 @@ def make_provider(tag: str) -> type:
     return Provider
 
 
+def real_arguments(kw: dict) -> tuple[list, dict]:
+    """The call a user writes for one term: a custom function goes first, a compiled regex is passed as such."""
+    args: list = []
+    kwargs: dict = {}
+    for key, value in kw.items():
+        if key == "func":
+            args.append(PREDICATES[value][0])
+        elif key.endswith("_regex") and isinstance(value, dict):
+            kwargs[key] = _regex(value)
+        else:
+            kwargs[key] = value
+    return args, kwargs
+
+
 def chain(target: Any, spec: list) -> Any:
     for t, kw in spec:
-        target = (target.apply_to if t == "apply" else target.skip_for)(**kw)
+        args, kwargs = real_arguments(kw)
+        target = (target.apply_to if t == "apply" else target.skip_for)(*args, **kwargs)
     return target
 
 
@@ -529,26 +674,57 @@ def apply_action(env: Env, action: dict) -> None:
             env.failed = {"position": len(env.hook_regs), "form": form, "own": own_class(spec), "entry": scope, "kind": kind,
                           "error": type(exc).__name__, "message": str(exc), "spec": spec}
             return
+        env.seq += 1
         env.hook_regs.append({"tag": tag, "scope": "S" if scope == "S2" else scope, "entry": scope, "form": form, "kind": kind,
-                              "own": spec, "fn": fn, "live": True, "removed_by": None})
+                              "own": spec, "fn": fn, "live": True, "removed_by": None, "seq": env.seq, "copies": 1, "share": None})
     elif t == "rehook":
         if action["i"] >= len(env.hook_regs) or not env.hook_regs[action["i"]]["live"] or env.hook_regs[action["i"]]["scope"] == "T":
             env.rejected.append("rehook_target_missing")
             return
         reg = env.hook_regs[action["i"]]
         _dispatcher(env, reg["scope"]).register_hook_with_name(reg["fn"], reg["kind"])
+        reg["copies"] += 1
+    elif t in ("alias", "twin"):
+        # the SAME function object registered a second time through a decorator, with the same filters of its own:
+        #   alias = on the same entry point under a second hook name (a generic `def tagger(context, value)` used for query and headers)
+        #   twin  = under the same name on the other of the two scopes global / schema
+        reg = env.hook_regs[action["i"]] if action["i"] < len(env.hook_regs) else None
+        if (reg is None or not reg["live"] or reg["scope"] == "T" or verb_of(reg["kind"]) is None
+                or any(r is not reg and r["fn"] is reg["fn"] for r in env.hook_regs)):
+            env.rejected.append(t + "_not_applicable")
+            return
+        if t == "alias":
+            swap = {"query": "headers", "headers": "query"}
+            if container_of(reg["kind"]) not in swap:
+                env.rejected.append("alias_not_applicable")
+                return
+            kind2 = f"{verb_of(reg['kind'])}_{swap[container_of(reg['kind'])]}"
+            entry2, form2 = reg["entry"], ("str_filter" if reg["form"] == "str_filter" else "str")
+        else:
+            kind2 = reg["kind"]
+            entry2, form2 = ("S" if reg["scope"] == "G" else "G"), reg["form"]
+        _register_hook(env, reg["fn"], kind2, form2, entry2, reg["own"])
+        env.seq += 1
+        env.hook_regs.append({"tag": reg["tag"], "scope": "S" if entry2 == "S2" else entry2, "entry": entry2, "form": form2, "kind": kind2,
+                              "own": reg["own"], "fn": reg["fn"], "live": True, "removed_by": None, "seq": env.seq, "copies": 1,
+                              "share": "two_names" if t == "alias" else "two_scopes"})
+        reg["share"] = "two_names" if t == "alias" else "two_scopes"
     elif t == "rereg":
         if action["i"] >= len(env.hook_regs):
             env.rejected.append("rereg_target_missing")
             return
         reg = env.hook_regs[action["i"]]
-        if reg["live"] or reg["scope"] == "T" or (action["form"] == "fn" and reg["form"] not in ("fn", "apply")):
+        if reg["live"] or reg["scope"] == "T" or (action["form"] == "fn" and reg["form"] not in ("fn", "apply")) or any(
+            r is not reg and r["fn"] is reg["fn"] for r in env.hook_regs
+        ):
             # two live registrations of one function with different filters: the text does not say which filter holds;
             # the by-function-name form needs a function that carries the hook's name
             env.rejected.append("rereg_not_applicable")
             return
         _register_hook(env, reg["fn"], reg["kind"], action["form"], reg["entry"], action["filter"])
-        reg.update({"live": True, "removed_by": None, "own": action["filter"], "form": action["form"], "reregistered": True})
+        env.seq += 1
+        reg.update({"live": True, "removed_by": None, "own": action["filter"], "form": action["form"], "reregistered": True,
+                    "seq": env.seq, "copies": 1})
     elif t == "unreg":
         if action["i"] >= len(env.hook_regs):
             env.rejected.append("unregister_target_missing")
@@ -558,9 +734,39 @@ def apply_action(env: Env, action: dict) -> None:
             schemathesis.hooks.unregister(reg["fn"])
         else:
             _dispatcher(env, reg["scope"]).unregister(reg["fn"])
-        if reg["live"]:
-            reg["live"] = False
-            reg["removed_by"] = "unregister"
+        # "unregister a specific hook" on ONE dispatcher: every registration of that function there, under whatever name; none elsewhere
+        for r in env.hook_regs:
+            if r["fn"] is reg["fn"] and r["scope"] == reg["scope"] and r["live"]:
+                r["live"] = False
+                r["removed_by"] = "unregister"
+    elif t == "unreg_other_scope":
+        # the function of hook #i handed to `unregister` of the OTHER scope's dispatcher: only a registration made there may go
+        reg = env.hook_regs[action["i"]] if action["i"] < len(env.hook_regs) else None
+        if reg is None or reg["scope"] == "T":
+            env.rejected.append("unregister_target_missing")
+            return
+        other = "S" if reg["scope"] == "G" else "G"
+        if other == "G":
+            schemathesis.hooks.unregister(reg["fn"])
+        else:
+            env.schema.hooks.unregister(reg["fn"])
+        for r in env.hook_regs:
+            if r["fn"] is reg["fn"] and r["scope"] == other and r["live"]:
+                r["live"] = False
+                r["removed_by"] = "unregister"
+    elif t == "unreg_foreign":
+        # a function that was never registered anywhere but carries the __name__ of a registered one
+        name = env.hook_regs[0]["fn"].__name__ if env.hook_regs else "map_query"
+        kind = env.hook_regs[0]["kind"] if env.hook_regs else "map_query"
+        stranger = make_hook(kind, "stranger", name, env.log)
+        try:
+            if action["scope"] == "G":
+                schemathesis.hooks.unregister(stranger)
+            else:
+                env.schema.hooks.unregister(stranger)
+        except Exception as exc:  # neither a no-op nor an error is documented for this call: never judged
+            env.undecided.append("unregister_of_unknown_function_raised_" + type(exc).__name__)
+        env.foreign += 1
     elif t == "unreg_all":
         if action["scope"] == "G":
             schemathesis.hooks.unregister_all()
@@ -609,12 +815,14 @@ def apply_action(env: Env, action: dict) -> None:
         raise AssertionError(t)
 
 
-def build(history: list[dict]) -> Env:
+def build(history: list[dict], view: str | None = None, spec: str = "openapi") -> Env:
     import schemathesis
 
     reset_globals()
     env = Env()
-    env.schema = schemathesis.openapi.from_dict(DOC)
+    env.view = view
+    env.spec = spec
+    env.schema = schemathesis.graphql.from_file(GQL_SDL) if spec == "graphql" else schemathesis.openapi.from_dict(DOC)
 
     def test(case):  # type: ignore[no-untyped-def]
         pass
@@ -632,6 +840,11 @@ def build(history: list[dict]) -> Env:
 # ---------------------------------------------------------------------------------------------------------------------
 
 
+def rid(reg: dict) -> str:
+    """One registration (a function shared by two registrations has one tag but two scopes or two hook names)."""
+    return f"{reg['tag']}/{reg['scope']}/{reg['kind']}"
+
+
 def observe(env: Env, res: Result) -> dict:
     from schemathesis.auths import AuthStorageMark
     from schemathesis.generation.hypothesis import builder
@@ -641,21 +854,36 @@ def observe(env: Env, res: Result) -> dict:
     test_auth = AuthStorageMark.get(env.test)
     obs: dict = {"ops": {}, "stored": {}, "present": {}, "stored_match": {}, "shared": {}}
     for reg in env.hook_regs:
-        obs["stored"][reg["tag"]] = stored_terms(reg["fn"])
+        obs["stored"][rid(reg)] = stored_terms(reg["fn"])
         disp = _dispatcher(env, reg["scope"])
-        obs["present"][reg["tag"]] = disp is not None and any(h is reg["fn"] for h in disp.get_all_by_name(reg["kind"]))
+        obs["present"][rid(reg)] = disp is not None and any(h is reg["fn"] for h in disp.get_all_by_name(reg["kind"]))
         fs = getattr(reg["fn"], "filter_set", None)
-        obs["shared"][reg["tag"]] = fs is not None and any(
-            o is not reg and getattr(o["fn"], "filter_set", None) is fs for o in env.hook_regs
+        obs["shared"][rid(reg)] = fs is not None and any(
+            o["fn"] is not reg["fn"] and getattr(o["fn"], "filter_set", None) is fs for o in env.hook_regs
         )
     want_examples = any(r["kind"] == "before_add_examples" for r in env.hook_regs)
-    for method, path in OPS:
-        operation = env.schema[path][method]
-        key = f"{method} {path}"
+    # docs/python.rst: `@schema.include(tag="admin").exclude(method="POST").parametrize()` is THE way a schema is narrowed for a test; the
+    # derived schema is created after the whole history here, so everything registered on `schema` belongs to its scope; both filters
+    # keep all three operations
+    if env.view == "include":
+        schema = env.schema.include(path_regex="^/")
+    elif env.view == "exclude":
+        schema = env.schema.exclude(method="PUT")
+    else:
+        assert env.view is None
+        schema = env.schema
+    for op in ops_of(env.spec):
+        operation = schema[op[0]][op[1]] if is_gql(op) else schema[op[1]][op[0]]
+        key = op_key(op)
         del env.log[:]
         strategy = operation.as_strategy(hooks=test_hooks, auth_storage=test_auth)
         ex = replay(draw_strategy(strategy), ALPHA, [])
         res.evaluations += 1
+        if ex.status == "error":
+            # generating a case for this operation raised: judged (an extension was neither applied nor skipped), nothing else is
+            obs["ops"][key] = {"log": [], "examples_log": [], "query_tags": [], "header_tags": [], "auth": None, "explicit_auth": False,
+                               "error": [type(ex.error).__name__, str(ex.error)[:200]]}
+            continue
         if ex.status != "valid":
             raise AssertionError(f"generation along the default path was {ex.status}: {ex.error!r}")
         case = ex.value
@@ -682,7 +910,11 @@ def observe(env: Env, res: Result) -> dict:
         for reg in env.hook_regs:
             fs = getattr(reg["fn"], "filter_set", None)
             # behaviour of the STORED filter object on this operation (observation, not expectation)
-            obs["stored_match"].setdefault(reg["tag"], {})[key] = True if fs is None else bool(fs.match(ctx))
+            try:
+                matched = True if fs is None else bool(fs.match(ctx))
+            except Exception:  # only used to word a violation
+                matched = None
+            obs["stored_match"].setdefault(rid(reg), {})[key] = matched
         obs["ops"][key] = {
             "log": gen_log,
             "examples_log": ex_log,
@@ -690,6 +922,7 @@ def observe(env: Env, res: Result) -> dict:
             "header_tags": sorted(k[4:] for k in headers if k.startswith("X-T-")),
             "auth": auth_obs,
             "explicit_auth": bool(getattr(case, "_has_explicit_auth", False)),
+            "error": None,
         }
     return obs
 
@@ -725,6 +958,10 @@ def judge(env: Env, obs: dict, history: list[dict], res: Result) -> str:
     def violation(sig: dict, detail: dict) -> None:
         nonlocal outcome
         outcome = "violation"
+        if env.view is not None:
+            # observed through schema.include(..) / schema.exclude(..): a separate fact, so that a defect of the derivation is not filed
+            # under a signature of the plain schema
+            sig = {**sig, "observed_through": "schema." + env.view}
         res.violation(sig, {"history": hist_txt, **detail})
 
     if env.failed is not None:
@@ -735,14 +972,14 @@ def judge(env: Env, obs: dict, history: list[dict], res: Result) -> str:
                   {"rejected_registration": {k: v for k, v in f.items() if k != "spec"}, "own_filter": spec_terms(f["spec"])})
     # (1) stored filter = filter given at the hook's own registration
     for reg in env.hook_regs:
-        stored = obs["stored"][reg["tag"]]
+        stored = obs["stored"][rid(reg)]
         expected = spec_terms(reg["own"])
         res.count("stored_filters_compared")
         if (stored or []) != expected:
             first_on_entry = [r for r in env.hook_regs if r["entry"] == reg["entry"]][0] is reg
             violation(
                 {"kind": "stored_filter_differs_from_own", "form": reg["form"], "own": own_class(reg["own"]),
-                 "stored": _stored_class(reg, env, stored or []), "filter_object_shared": obs["shared"][reg["tag"]],
+                 "stored": _stored_class(reg, env, stored or []), "filter_object_shared": obs["shared"][rid(reg)],
                  "first_on_entry_point": first_on_entry},
                 {"hook": reg["tag"], "kind": reg["kind"], "entry": reg["entry"], "own_filter": expected, "stored_filter": stored},
             )
@@ -750,7 +987,7 @@ def judge(env: Env, obs: dict, history: list[dict], res: Result) -> str:
             res.count("stored_nonempty_filters_equal_own")
     # (3) unregister removes exactly that hook
     for reg in env.hook_regs:
-        present = obs["present"][reg["tag"]]
+        present = obs["present"][rid(reg)]
         if present != reg["live"]:
             if present:
                 sig = {"kind": "hook_still_registered_after_unregistration", "by": reg["removed_by"], "scope": reg["scope"]}
@@ -763,9 +1000,15 @@ def judge(env: Env, obs: dict, history: list[dict], res: Result) -> str:
         elif any(not r["live"] for r in env.hook_regs):
             res.count("hooks_surviving_an_unregistration")
     # (2) application
-    for op in OPS:
-        key = f"{op[0]} {op[1]}"
+    for op in ops_of(env.spec):
+        key = op_key(op)
         o = obs["ops"][key]
+        if o["error"] is not None:
+            conds = sorted({c for r in env.hook_regs + env.auth_regs if r["live"] for _, kw in r["own"] for c in kw})
+            violation({"kind": "case_generation_raised", "schema": env.spec, "error": o["error"][0], "message": o["error"][1],
+                       "operation_id_condition_on_graphql_operation": env.spec == "graphql" and any(c.startswith("operation_id") for c in conds)},
+                      {"operation": key, "conditions_of_live_filters": conds})
+            continue
         for source, log in (("generation", o["log"]), ("examples", o["examples_log"])):
             for tag, label in log:
                 if label != key:
@@ -773,14 +1016,24 @@ def judge(env: Env, obs: dict, history: list[dict], res: Result) -> str:
                               {"hook": tag, "context": label, "operation": key})
         ran_gen = {tag for tag, _ in o["log"]}
         ran_ex = {tag for tag, _ in o["examples_log"]}
+        judge_shared(env, op, key, o, history, violation, res)
+        judge_order(env, key, o, violation, res)
         for reg in env.hook_regs:
             cont = container_of(reg["kind"])
             if not has_container(reg["kind"], op):
                 res.count("undecided_no_body_on_operation")
                 continue
+            if reg["share"] is not None:
+                continue  # one function, two registrations: judged by call counts in judge_shared
             observed = reg["tag"] in (ran_ex if cont == "examples" else ran_gen)
             expected = reg["live"] and own_filter_matches(reg["own"], op)
             res.count("applications_judged")
+            if reg["live"]:
+                for _, kw in reg["own"]:
+                    for cond in kw:
+                        res.count(f"term_{cond}_{'applied' if observed else 'skipped'}")
+                if len(reg["own"]) > 1 or any(len(kw) > 1 for _, kw in reg["own"]):
+                    res.count("compound_filter_" + ("applied" if observed else "skipped"))
             if observed and reg["own"]:
                 res.count("filtered_hook_applied")
             if not observed and reg["live"] and reg["own"]:
@@ -789,8 +1042,8 @@ def judge(env: Env, obs: dict, history: list[dict], res: Result) -> str:
                 res.count(f"applied_scope_{reg['scope']}")
                 res.count(f"applied_kind_{reg['kind']}")
             if observed != expected:
-                present = obs["present"][reg["tag"]]
-                stored_match = obs["stored_match"][reg["tag"]][key]
+                present = obs["present"][rid(reg)]
+                stored_match = obs["stored_match"][rid(reg)][key]
                 if present != reg["live"] and observed == (present and stored_match):
                     explained = "registered_set"
                 elif observed == (present and stored_match) and (stored_match != own_filter_matches(reg["own"], op)):
@@ -801,7 +1054,7 @@ def judge(env: Env, obs: dict, history: list[dict], res: Result) -> str:
                     {"kind": "hook_application_differs_from_own_filter",
                      "direction": "applied_outside_own_filter" if observed else "not_applied_inside_own_filter",
                      "explained_by": explained, "container": cont, "hook_kind": reg["kind"], "scope": reg["scope"]},
-                    {"hook": reg["tag"], "operation": key, "own_filter": spec_terms(reg["own"]), "stored_filter": obs["stored"][reg["tag"]],
+                    {"hook": reg["tag"], "operation": key, "own_filter": spec_terms(reg["own"]), "stored_filter": obs["stored"][rid(reg)],
                      "model_live": reg["live"], "present": present, "stored_filter_matches_operation": stored_match},
                 )
             # effect on the generated data for tagging kinds
@@ -817,6 +1070,59 @@ def judge(env: Env, obs: dict, history: list[dict], res: Result) -> str:
         if env.auth_regs:
             judge_auth(env, op, key, o, violation, res)
     return outcome
+
+
+def judge_shared(env: Env, op: list, key: str, o: dict, history: list[dict], violation: Callable, res: Result) -> None:
+    """One function object registered twice (two hook names on one dispatcher, or one name on the global and the schema dispatcher), both
+    times with the same filter of its own: each live registration whose filter selects the operation calls the function once."""
+    done = set()
+    for reg in env.hook_regs:
+        if reg["share"] is None or reg["tag"] in done:
+            continue
+        done.add(reg["tag"])
+        group = [r for r in env.hook_regs if r["tag"] == reg["tag"]]
+        expected = sum(r["copies"] for r in group if r["live"] and has_container(r["kind"], op) and own_filter_matches(r["own"], op))
+        observed = sum(1 for tag, _ in o["log"] if tag == reg["tag"])
+        res.count("shared_function_applications_judged")
+        if expected and observed == expected:
+            res.count(f"shared_function_{reg['share']}_applied_{min(expected, 2)}x")
+        if observed != expected:
+            violation(
+                {"kind": "function_registered_twice_called_wrong_number_of_times", "shape": reg["share"],
+                 "direction": "more_calls_than_live_matching_registrations" if observed > expected else "fewer_calls_than_live_matching_registrations",
+                 "live": sorted(f"{r['scope']}:{verb_of(r['kind'])}" for r in group if r["live"]),
+                 "history_has": sorted({a["t"] for a in history if a["t"].startswith("unreg")})},
+                {"hook": reg["tag"], "operation": key, "calls": observed, "expected_calls": expected,
+                 "registrations": [[r["scope"], r["kind"], r["live"], r["copies"], spec_terms(r["own"])] for r in group]},
+            )
+
+
+_RANK = {"G": 0, "S": 1, "T": 2}
+
+
+def judge_order(env: Env, key: str, o: dict, violation: Callable, res: Result) -> None:
+    """docs/extending.rst: "They execute in the order they are defined, with globally defined hooks executing first, followed by
+    schema-specific hooks, and finally test-specific hooks."  Judged for two hooks of the SAME kind only (the relative order of, say, a
+    filter_ and a map_ hook is not documented), on the first call of each while one case is generated."""
+    first: dict[str, int] = {}
+    for pos, (tag, _) in enumerate(o["log"]):
+        first.setdefault(tag, pos)
+    regs = [r for r in env.hook_regs if r["share"] is None and r["live"] and r["tag"] in first and verb_of(r["kind"]) is not None]
+    for i, a in enumerate(regs):
+        for b in regs[i + 1:]:
+            if a["kind"] != b["kind"]:
+                continue
+            ka, kb = (_RANK[a["scope"]], a["seq"]), (_RANK[b["scope"]], b["seq"])
+            lo, hi = (a, b) if ka < kb else (b, a)
+            res.count("order_pairs_judged")
+            if lo["scope"] != hi["scope"]:
+                res.count("order_pairs_across_scopes")
+                if lo["seq"] > hi["seq"]:
+                    res.count("order_pairs_scope_order_against_definition_order")
+            if first[lo["tag"]] > first[hi["tag"]]:
+                violation({"kind": "hooks_run_out_of_documented_order", "hook_kind": a["kind"], "expected_first": lo["scope"],
+                           "ran_first": hi["scope"]},
+                          {"operation": key, "expected_first": lo["tag"], "ran_first": hi["tag"], "calls": [t for t, _ in o["log"]]})
 
 
 def judge_auth(env: Env, op: list, key: str, o: dict, violation: Callable, res: Result) -> None:
@@ -838,6 +1144,9 @@ def judge_auth(env: Env, op: list, key: str, o: dict, violation: Callable, res: 
             return
         if reg["own"]:
             res.count("filtered_auth_applied")
+            for _, kw in reg["own"]:
+                for cond in kw:
+                    res.count(f"auth_term_{cond}_applied")
         if not o["explicit_auth"]:
             violation({"kind": "auth_applied_but_case_not_marked_explicit"}, {"operation": key, "provider": observed})
     live = [r for r in env.auth_regs if r["live"]]
@@ -875,7 +1184,14 @@ def judge_auth(env: Env, op: list, key: str, o: dict, violation: Callable, res: 
 
 def describe(a: dict) -> str:
     def filt(spec: list) -> str:
-        return "".join(f".{'apply_to' if t == 'apply' else 'skip_for'}({', '.join(f'{k}={v!r}' for k, v in kw.items())})" for t, kw in spec)
+        def arg(k: str, v: Any) -> str:
+            if k == "func":
+                return str(v)
+            if isinstance(v, dict):
+                return f"{k}=re.compile({v['compiled']!r}{', re.IGNORECASE' if 'I' in v.get('flags', '') else ''})"
+            return f"{k}={v!r}"
+
+        return "".join(f".{'apply_to' if t == 'apply' else 'skip_for'}({', '.join(arg(k, v) for k, v in kw.items())})" for t, kw in spec)
 
     if a["t"] == "hook":
         ep = {"G": "schemathesis.hook", "S": "schema.hook", "S2": "schema.hooks.register", "T": "schema.hooks.apply"}[a["scope"]]
@@ -894,6 +1210,14 @@ def describe(a: dict) -> str:
         return f"register the function of hook #{a['i']} again" + (" by name" if a["form"] == "str" else " by function name") + (filt(a["filter"]) or " without filters")
     if a["t"] == "unreg":
         return f"unregister(hook #{a['i']})"
+    if a["t"] == "alias":
+        return f"register the function of hook #{a['i']} under a second hook name (query <-> headers) with the same filters"
+    if a["t"] == "twin":
+        return f"register the function of hook #{a['i']} on the other scope (global <-> schema) with the same filters"
+    if a["t"] == "unreg_other_scope":
+        return f"unregister(function of hook #{a['i']}) on the OTHER scope's dispatcher (global <-> schema)"
+    if a["t"] == "unreg_foreign":
+        return ("schemathesis.hooks" if a["scope"] == "G" else "schema.hooks") + ".unregister(<never registered function with the same __name__>)"
     if a["t"] == "unreg_all":
         return ("schemathesis.hooks" if a["scope"] == "G" else "schema.hooks") + ".unregister_all()"
     if a["t"] == "auth":
@@ -910,15 +1234,15 @@ def describe(a: dict) -> str:
 def canon(env: Env, obs: dict) -> Any:
     """Only what the property can observe: per extension its scope/kind/liveness/stored filter, per operation who ran / who authenticated."""
     return {
-        "hooks": [[r["scope"], r["kind"], obs["present"][r["tag"]], obs["stored"][r["tag"]]] for r in env.hook_regs],
+        "hooks": [[r["scope"], r["kind"], obs["present"][rid(r)], obs["stored"][rid(r)]] for r in env.hook_regs],
         "ops": {k: [sorted({t for t, _ in v["log"]}), sorted({t for t, _ in v["examples_log"]}), v["query_tags"], v["header_tags"], v["auth"]]
                 for k, v in obs["ops"].items()},
         "auth": [[r["scope"], r["live"]] for r in env.auth_regs],
     }
 
 
-def run_history(history: list[dict], res: Result, judge_it: bool = True) -> str:
-    env = build(history)
+def run_history(history: list[dict], res: Result, judge_it: bool = True, view: str | None = None, spec: str = "openapi") -> str:
+    env = build(history, view, spec)
     obs = observe(env, res)
     if not judge_it:
         return digest(canon(env, obs))
@@ -929,6 +1253,14 @@ def run_history(history: list[dict], res: Result, judge_it: bool = True) -> str:
     for reason in env.rejected:
         res.outcomes.add("action_rejected_as_documented")
         res.count(reason + "_rejected")
+    for reason in env.undecided:
+        res.count("undecided_" + reason)
+    if env.foreign and env.hook_regs and all(r["live"] for r in env.hook_regs):
+        res.count("unregister_of_unknown_function_with_hooks_registered")
+    if env.view is not None:
+        res.count("observed_through_schema_" + env.view)
+    if env.spec == "graphql":
+        res.count("graphql_histories")
     res.outcomes.add(outcome if history else "empty_history")
     for a in history:
         if a["t"] == "hook":
@@ -972,7 +1304,7 @@ def check_item(item: dict, tier: str) -> Result:
         nxt = []
         for history in frontier:
             if relevant(history):
-                run_history(history, res)
+                run_history(history, res, view=view_of(item["fam"]), spec="graphql" if item["fam"] == "graphql" else "openapi")
             if len(history) < depth:
                 for a in sigma:
                     if enabled(history, a):
@@ -998,9 +1330,26 @@ def vacuity(total: Result, tier: str) -> list[str]:
             "form_apply_name", "applied_kind_map_query", "applied_kind_before_generate_query", "applied_kind_filter_query",
             "applied_kind_flatmap_query", "applied_kind_before_generate_headers", "applied_kind_filter_body", "applied_kind_map_case",
             "applied_kind_before_add_examples"]
+    # review round 2: every documented condition was seen both selecting and excluding an operation, on hooks and on auth providers;
+    # compound filters; every verb x container kind; one function registered twice; derived schemas; documented order
+    for cond in ("method", "path", "name", "tag", "operation_id", "func"):
+        need += [f"term_{cond}_applied", f"term_{cond}_skipped"]
+        if cond != "func":
+            need += [f"term_{cond}_regex_applied", f"term_{cond}_regex_skipped"]
+    need += ["auth_term_tag_applied", "auth_term_operation_id_applied", "auth_term_func_applied", "auth_term_name_regex_applied",
+             "auth_term_path_regex_applied", "compound_filter_applied", "compound_filter_skipped"]
+    need += [f"applied_kind_{verb}_{cont}" for verb in c19_extra.VERBS for cont in c19_extra.CONTAINERS]
+    need += ["shared_function_two_names_applied_2x", "shared_function_two_scopes_applied_2x", "shared_function_two_scopes_applied_1x",
+             "unregister_of_unknown_function_with_hooks_registered", "observed_through_schema_include", "observed_through_schema_exclude",
+             "order_pairs_judged", "order_pairs_across_scopes", "order_pairs_scope_order_against_definition_order", "graphql_histories"]
     for k in need:
         if not c.get(k):
             out.append(f"coverage counter {k} is zero")
+    # guard of the reference matcher: the operations each filter of mc/c19_extra.py selects were also worked out by hand from the docs
+    for name, spec in c19_extra.TERMS.items():
+        got = sorted(f"{m} {p}" for m, p in OPS if own_filter_matches(spec, [m, p]))
+        if got != sorted(c19_extra.EXPECTED_BY_HAND[name]):
+            out.append(f"reference matcher disagrees with the hand-computed selection for filter {name!r}: {got}")
     if len(total.outcomes) < 2:
         out.append("a single outcome class")
     return out
@@ -1018,8 +1367,9 @@ LEVEL_TEXT = (
     "histories, which is exactly what is enumerated."
 )
 LEVEL_NOTE = (
-    "Trusted: the reference matcher in this module (method/path/name/path_regex conditions), E1's provider seam, and the re-creation of the "
-    "global registration closure per history (guarded by sentinel histories). Not covered: histories deeper than the bound or using forms / "
-    "conditions outside the alphabet (tag, operation_id, custom matcher functions), re-registration of one function object, GraphQL schemas, "
+    "Trusted: the reference matcher in this module (all documented conditions; cross-checked against a hand-computed table in vacuity()), "
+    "E1's provider seam, and the re-creation of the global registration closure per history (guarded by sentinel histories). Not covered: "
+    "histories deeper than the bound or using forms outside the alphabet, one function registered twice with different filters, "
+    "registrations made after a schema was derived, GraphQL schemas, explicit headers=/auth= overriding providers, "
     "auth precedence beyond what set_on_case documents."
 )
